@@ -350,6 +350,8 @@ let run (op : string) (a : string list) : string list =
   (* C15 *)
   | "fault", [res_ok; after; same] ->
       [verdict (check_fault (bool_of_string01 res_ok) (nlist_of_string after) (bool_of_string01 same))]
+  | "call_order", [op; kinds] ->
+      [verdict (check_call_order (n_of_string op) (nlist_of_string kinds))]
   (* C19 *)
   | "pure", [alone; obs; snaps] ->
       let pairs x = List.map (fun e -> match split ':' e with
